@@ -8,6 +8,10 @@ header "verifies" is decided by the independent C22 reference (``lib/c22_ref.py`
 ``AuthContext`` captured *inside the method* (HTTP level) or returned by the callback (callback level),
 the invocation logs of the inner/other authenticators, and — differential — what the same request gets
 from an application configured with the inner authenticator alone / with no authenticator at all.
+
+Composition ``two_gates``: chain_authenticate(require_all(front_gate, rejecting credential), require_all(gate, inner))
+where the front gate belongs to another proxy (allow mode, foreign secret); the group under test must behave exactly
+as it does alone.
 """
 
 from __future__ import annotations
